@@ -12,5 +12,6 @@ CONSTANTS
   Inter = {TRUE}
   Multis = {FALSE, TRUE}
   Muts = {0}
+  RouteIds = {1}
   Rounds = 1
 PROPERTY Termination
